@@ -106,10 +106,11 @@ theorem C09_clear_simulates {A : Int → List Int} {t : Table α} (h : R A t) (f
 /-! ### the 2.x crate API and the table-level entity API: per-operation simulation and history induction -/
 
 /-- Per-operation simulation: every operation of the Model keeps the tables a representation of the Spec lists
-after the corresponding Spec operation (`absF d` is the Spec forest by C07's refinement). -/
-theorem C09_step_simulates {S : Ord} {d : Db} (h : ChInv S d) (op : Op) (hok : okOp op = true) :
+after the corresponding Spec operation (`absF d` is the Spec forest by C07's refinement; `PlInv d`: that forest is
+well-formed, so that the recursive view behind remove_crate / set_parent terminates). -/
+theorem C09_step_simulates {S : Ord} {d : Db} (h : ChInv S d) (hP : PlInv d) (op : Op) (hok : okOp op = true) :
     ChInv (ordNext S (absF d) op (step d op).2) (step d op).1 :=
-  chInv_step h op hok
+  chInv_step h hP op hok
 
 /- Full statement (false, see `C09_history_counterexample`): the same for all `ops`. -/
 /-- History induction: after every prefix of every history from the empty database the Spec run (driven by the
@@ -173,7 +174,7 @@ theorem C09_history_listings_change_as_prescribed_partial (ops : List Op) (hok :
       (qEntities (step (run Db.empty ops) op).1 k).bind (fun l => .ok (l.map (·.1))) = .ok newe ∧
       (entsChange S (absF (run Db.empty ops)) op (step (run Db.empty ops) op).2 k).holds olde newe = true ∧ newe.Nodup := by
   obtain ⟨S, h0, hI⟩ := chInv_hist ops hok
-  have hI' := chInv_step hI op hop
+  have hI' := chInv_step hI (plInv_run plInv_empty ops) op hop
   obtain ⟨_, a2, _, a4, _⟩ := C09_listings_equal_spec hI
   obtain ⟨_, b2, b3, b4, b5⟩ := C09_listings_equal_spec hI'
   refine ⟨S, h0, _, _, a2 k, b2 k, kids_change hI op k, b3 k, S.entIds k, (ordStep S (run Db.empty ops) op).entIds k, ?_, ?_,
@@ -183,7 +184,7 @@ theorem C09_history_listings_change_as_prescribed_partial (ops : List Op) (hok :
 
 /-- The position, spelt out: a crate created without a position, and a crate moved to a new parent, is listed LAST
 among its new siblings (and the listing it leaves loses exactly it). -/
-theorem C09_new_or_moved_crate_is_last {S : Ord} {d : Db} (h : ChInv S d) :
+theorem C09_new_or_moved_crate_is_last {S : Ord} {d : Db} (h : ChInv S d) (hP : PlInv d) :
     (∀ n out, (step d (.createRoot n)).2 = .ok out →
       ∃ i, out = some i ∧ qRoots (step d (.createRoot n)).1 = .ok (S.kids 0 ++ [i])) ∧
     (∀ p n out, (step d (.createSub p n)).2 = .ok out →
@@ -194,19 +195,19 @@ theorem C09_new_or_moved_crate_is_last {S : Ord} {d : Db} (h : ChInv S d) :
       qChildren (step d (.setParent c p)).1 (keyOf ((absF d).parentOf c)) = .ok ((S.kids (keyOf ((absF d).parentOf c))).erase c)) := by
   refine ⟨?_, ?_, ?_⟩
   · intro n out hres
-    have hI' := chInv_step h (.createRoot n) rfl
+    have hI' := chInv_step h hP (.createRoot n) rfl
     have hout := step_createRoot_ok hres
     refine ⟨_, hout, ?_⟩
     rw [(C09_listings_equal_spec hI').1]
     simp only [ordStep, ordNext, hres, hout, ordOk, setKey_same]
   · intro p n out hres
-    have hI' := chInv_step h (.createSub p n) rfl
+    have hI' := chInv_step h hP (.createSub p n) rfl
     have hout := step_createSub_ok hres
     refine ⟨_, hout, ?_⟩
     rw [(C09_listings_equal_spec hI').2.1 p]
     simp only [ordStep, ordNext, hres, hout, ordOk, setKey_same]
   · intro c p out hres hl hne
-    have hI' := chInv_step h (.setParent c p) rfl
+    have hI' := chInv_step h hP (.setParent c p) rfl
     have hcond : ((absF d).live c && keyOf ((absF d).parentOf c) != keyOf p) = true := by simp [hl, hne]
     have hk : (ordStep S d (.setParent c p)).kids = moveKid S.kids (keyOf ((absF d).parentOf c)) (keyOf p) c := by
       simp only [ordStep, ordNext, hres, ordOk, hcond, if_true]
@@ -221,7 +222,7 @@ same list with the same track id AND the same database uuid.  Whatever else the 
 an entry of ANOTHER database that happens to carry the same numeric track id — a new entry is appended at the
 end of the listing with the next AUTOINCREMENT id and the payload given, for every uuid `u`.  (The hypothesis is on
 the Spec's own listing.) -/
-theorem C09_add_back_identity_includes_database {S : Ord} {d : Db} (h : ChInv S d) (l t u : Int) (f : Bool) (ht : 0 < t)
+theorem C09_add_back_identity_includes_database {S : Ord} {d : Db} (h : ChInv S d) (hP : PlInv d) (l t u : Int) (f : Bool) (ht : 0 < t)
     (hnew : S.find l t u = none) :
     (step d (.peAddBack l t u f)).2 = .ok (some (d.peSeq + 1)) ∧
     ChInv (ordNext S (absF d) (.peAddBack l t u f) (step d (.peAddBack l t u f)).2) (step d (.peAddBack l t u f)).1 ∧
@@ -231,7 +232,7 @@ theorem C09_add_back_identity_includes_database {S : Ord} {d : Db} (h : ChInv S 
   have hstep : step d (.peAddBack l t u f) =
       ({ d with pe := appendBack d.pe (d.peSeq + 1) l ⟨t, u⟩, peSeq := d.peSeq + 1 }, .ok (some (d.peSeq + 1))) := by
     simp [step, peAddBack, hnone]
-  have hI' := chInv_step h (.peAddBack l t u f) (by simpa [okOp] using ht)
+  have hI' := chInv_step h hP (.peAddBack l t u f) (by simpa [okOp] using ht)
   refine ⟨by rw [hstep], hI', ?_⟩
   rw [qEntities_eq hI' l]
   simp only [ordStep, ordNext, hstep, ordOk, hnew, Option.isNone_none, if_true, setKeyE_same, List.map_append,
